@@ -1260,8 +1260,12 @@ LEVEL_NOTE = ("Model lemmas, not property clauses (one-step unfoldings of model 
               "redirect_target_absolute, http10_stream_raw. Second audit, not done, what is and is not established: (a) "
               "reader_accepts_rfc_chunked / reads_of_rfc_chunked require that no Content-Length is present; Transfer-Encoding next to a "
               "valid Content-Length (reader 0d0b7c2, sender 07183e2) is in the model (readBodyWith lets the coding win) and K-validated "
-              "(distribution key stream:chunked+content-length), not a theorem. (b) There is no negative theorem on HttpFrame.serveStep "
-              "for the inputs WFName / CodingOk exclude (non-token names 9bf376e, leading continuation c2e6d14, coding not ending in "
+              "(distribution key stream:chunked+content-length), not a theorem. (b) The negative side of HttpFrame.serveStep is "
+              "refused_request_no_handler (whenever the reader gives a request up: no handler call for any plan, nothing but an "
+              "already-triggered interim 100 written, connection not kept) + refused_requests_examples (kernel evaluation of the "
+              "reader on one request of each refused kind, the same 8 requests run on the real server from "
+              "corpus/C10/refused_requests.ops); there is no theorem characterising ALL "
+              "the inputs WFName / CodingOk exclude (non-token names 9bf376e, leading continuation c2e6d14, coding not ending in "
               "chunked 4dff910): the refusal is in the model (readHeadersLoop, readRequest, serveStep: no handler call, nothing "
               "written, connection given up) and K-validated by generated and corpus cases (keys refused:*); C09 proves the negatives "
               "about its own model. (c) file_response_roundtrip is about hand-assembled bytes (headerBlock + writeFile of the slice "
